@@ -123,7 +123,8 @@ func (e *env) runSpanTable(ts TableSpec, idx int) {
 			} else {
 				c.Outcome("span:agree-untruncated")
 			}
-			if n++; e.sample && n == 41 {
+			if n++; e.sample && n > 41 && cut && len(rd)+len(rk) > 0 {
+				e.sample = false
 				c.Sample(map[string]any{"case": cs.String(), "rangedels": fmt.Sprint(rd), "rangekeys": fmt.Sprint(rk)})
 			}
 		}
